@@ -32,9 +32,9 @@ def _is_array(t):
     return t.startswith('[') and ';' in t
 
 
-def check(F, ck, rule, entry_q='WitnessWrite::set_proof_with_pis_target', floor=6):
+def check(F, ck, rule, entry_q='WitnessWrite::set_proof_with_pis_target', floor=6, crate='plonky2'):
     C = cha_mod.CHA(F)
-    cands = [f for f in F.find(entry_q, crate='plonky2') if f.body is not None]
+    cands = [f for f in F.find(entry_q, crate=crate) if f.body is not None]
     if len(cands) != 1:
         ck.ob(rule, 'anchor:' + entry_q, False, 'ANCHOR-MISSING: %s (%d candidates)' % (entry_q, len(cands)), entry_q)
         return
@@ -46,14 +46,14 @@ def check(F, ck, rule, entry_q='WitnessWrite::set_proof_with_pis_target', floor=
             t = ty_adt(fn.types[b['t']] if b.get('t') is not None else '') or ''
             if t.endswith('Target') and troot is None and b['n'] != 'self':
                 troot = b['n']
-            elif t.startswith('Proof') and not t.endswith('Target'):
+            elif (t.startswith('Proof') or t.startswith('StarkProof')) and not t.endswith('Target'):
                 vroot = b['n']
     if troot is None or vroot is None:
         ck.ob(rule, 'anchor:params', False, 'ANCHOR-MISSING: cannot identify the target and value parameters of %s' % fn.qual, '%s:%d' % (fn.file, fn.line))
         return
 
     def inl(c, d, ev):
-        t = [f for f in C.targets(c, d) if f.crate == 'plonky2' and ('iop/witness.rs' in f.file or 'fri/witness_util.rs' in f.file or 'plonk/proof.rs' in f.file or 'fri/structure.rs' in f.file)]
+        t = [f for f in C.targets(c, d) if f.crate in ('plonky2', 'starky') and ('iop/witness.rs' in f.file or 'fri/witness_util.rs' in f.file or 'plonk/proof.rs' in f.file or 'fri/structure.rs' in f.file or 'starky/src/recursive_verifier.rs' in f.file or 'starky/src/proof.rs' in f.file)]
         return t[:2]
     fl = flow.Flow(F, fn, inline=inl, depth=6, opaque=('PartialWitness', 'PartitionWitness', 'Self'))
     guards = [e for e in fl.events if e.kind == 'guard']
@@ -105,3 +105,37 @@ def check(F, ck, rule, entry_q='WitnessWrite::set_proof_with_pis_target', floor=
               'SURPLUS ELEMENTS DROPPED: %s pairs targets with proof values (%s) by a truncating zip and no Err-returning guard rejects a value sequence longer than the targets: '
               'a proof that the native verifier rejects for its shape is copied as if well-formed and accepted in-circuit' % (e.fn.qual, ', '.join(sorted(x[2:] for x in V))[:200]), e.loc())
     ck.floor(rule, 'target/value pairings in the witness-assignment closure', n, floor)
+    # optional parts: `if let (Some(t), Some(v)) = (&target.x, &proof.x) { set(t, v) }` drops a value whose target is absent
+    from .facts import walk
+    fns = {}
+    for e in fl.events:
+        fns[e.fn.d] = e.fn
+    fns[fn.d] = fn
+    for f in fns.values():
+        for x in walk(f.body):
+            if x.get('k') != 'If' or x['c'].get('k') != 'LetE':
+                continue
+            pat, init = x['c']['p'], x['c']['i']
+            if pat.get('k') != 'PTuple' or init.get('k') != 'Tup' or len(pat['a']) != 2 or len(init['a']) != 2:
+                continue
+            if not all(q.get('k') == 'PTupleStruct' and (q.get('d') or '').endswith('Some') for q in pat['a']):
+                continue
+            tys = [f.ty(a) or '' for a in init['a']]
+            if not all('Option<' in t for t in tys) or sum('Target' in t for t in tys) != 1:
+                continue
+            vi = 0 if 'Target' not in tys[0] else 1
+            vnode = init['a'][vi]
+            while vnode.get('k') in ('Ref', 'Un'):
+                vnode = vnode['e']
+            fieldn = vnode.get('n') if vnode.get('k') == 'Field' else '?'
+            el = x.get('el')
+            ok = el is not None and (flow.diverges_with_err(el) or flow.tail_is_err(el))
+            if not ok:
+                for g in guards:
+                    ps = [a for a in g.pins if a.endswith('.' + fieldn) or a.endswith('.' + fieldn + '[]')]
+                    if any(_paths(frozenset([a]), troot) for a in ps) and any(_paths(frozenset([a]), vroot) for a in ps):
+                        ok = True
+                        break
+            ck.ob(rule, 'option-pair:%s:%s' % (f.name, fieldn), ok, 'presence of the optional part agrees between target and value (or the mismatch is an error)' if ok else
+                  'SURPLUS OPTIONAL PART DROPPED: %s copies %s only when both the target and the proof have it, and nothing rejects a proof that HAS it when the circuit has no target for it: '
+                  'such a proof is rejected natively (shape) but its extra part is ignored in-circuit' % (f.qual, fieldn), x.get('s'))
